@@ -152,6 +152,11 @@ func runC16x(c c16Case, info *c16Info) *vstat.Failure {
 		case "crlf":
 			seq++
 			appendData(fmt.Sprintf("L%d\r\n", seq))
+		case "binary":
+			// bytes that are not UTF-8 (a Latin-1 log, a stray continuation byte, a
+			// sequence cut short by the line end): delivered as they are
+			seq++
+			appendData(fmt.Sprintf("L%d caf\xe9 \xff\xfe \x80 \xe3\x81\n", seq))
 		case "multi":
 			var sb strings.Builder
 			for k := 0; k < 2+st.N%3; k++ {
@@ -223,6 +228,19 @@ func runC16x(c c16Case, info *c16Info) *vstat.Failure {
 			exists = false
 			live = 0
 			endGeneration()
+		case "delete-recreate":
+			// the file is removed, the stream notices and ends, and the file is
+			// there again before any pattern poll has seen the path missing
+			must(os.Remove(path))
+			endGeneration()
+			sw.Broadcast()
+			await(5*time.Second, func() bool {
+				return sw.Waiting() == 0 && expInt("log_count")-logCount0 == 0
+			})
+			f, err := os.Create(path)
+			must(err)
+			f.Close()
+			live = 0
 		case "recreate":
 			if exists {
 				break
@@ -316,11 +334,11 @@ func c16RunRaw(raw json.RawMessage) *vstat.Failure {
 }
 
 func TestC16(t *testing.T) {
-	st := vstat.New("C16", "histories on a real file tailed through tailer.New (its absolute path, optionally also named by one or two overlapping glob patterns) with harness-controlled wakers: append line / CRLF line / several lines in one write / unterminated fragment / completion of a fragment / a burst of fixed-width records filling the 128 KiB read buffer exactly once or twice, truncate in place, rename+create, copy+truncate, delete, re-create (empty), poll without change; the file may pre-exist with content incl. half a line or not exist at first. After every step the tailer is made to observe it (stream wake barrier, pattern poll barrier, log_count) and the delivered lines must equal the model's sequence exactly; finally tailing is stopped. non-trivial = a fragment pending when a generation ends, or >= 2 generation changes; distinct by history")
+	st := vstat.New("C16", "histories on a real file tailed through tailer.New (its absolute path, optionally also named by one or two overlapping glob patterns) with harness-controlled wakers: append line / CRLF line / line with bytes that are not UTF-8 / several lines in one write / unterminated fragment / completion of a fragment / a burst of fixed-width records filling the 128 KiB read buffer exactly once or twice, truncate in place, rename+create, copy+truncate, delete, re-create (empty), delete and re-create between two pattern polls (the stream has seen the deletion, the pattern poller has not), poll without change; the file may pre-exist with content incl. half a line or not exist at first. After every step the tailer is made to observe it (stream wake barrier, pattern poll barrier, log_count) and the delivered lines must equal the model's sequence exactly; finally tailing is stopped. non-trivial = a fragment pending when a generation ends, or >= 2 generation changes; distinct by history")
 	st.Assumptions = []string{"a step counts as observed when every live stream and the pattern poller are back in Wake() and log_count matches the model", "every line carries a sequence number, so loss, duplication, merging and reordering are told apart"}
 	st.Run(t, c16RunRaw, func() {
 		ops := []string{"line", "line", "crlf", "multi", "frag", "frag", "complete", "truncate", "rotate", "copytruncate", "delete", "recreate", "poll",
-			"line", "line", "crlf", "multi", "frag", "frag", "complete", "truncate", "rotate", "copytruncate", "delete", "recreate", "poll", "burst"}
+			"line", "line", "crlf", "multi", "frag", "frag", "complete", "truncate", "rotate", "copytruncate", "delete", "recreate", "poll", "burst", "binary", "binary", "delete-recreate"}
 		var drop []string
 		if st.IsLive("C16-1") { // fragment re-delivered after truncation
 			drop = append(drop, "C16-1")
